@@ -295,10 +295,33 @@ fn precision_increase(decimals: u32) -> Result<u128, ProgramError> {
     }
     Ok(10u128.pow(19 - decimals))
 }
+static FOLLOW_MOCKS: std::sync::atomic::AtomicBool = std::sync::atomic::AtomicBool::new(false);
+/// Process-wide switch (like `venue_solend::set_math_mode`): when on, the fake converts token amounts into scaled
+/// balance with the repository's OWN model of DRIFT (`drift_mocks::state::MinimalSpotMarket::get_scaled_balance_*`), i.e.
+/// the venue behaves exactly as marginfi's handlers predict it - the worst case for whatever those helpers get wrong
+/// (marginfi compares DRIFT's reported balance change with the helper's value after the CPI, so an independent venue
+/// merely refuses where the helper is off). On the unchanged tree both modes compute the same numbers.
+pub fn set_follow_mocks(on: bool) {
+    FOLLOW_MOCKS.store(on, std::sync::atomic::Ordering::SeqCst);
+}
+
 /// DRIFT `get_spot_balance`: floor(amount * 10^(19-dec) / cumulative_interest), +1 if `round_up` and non-zero
 fn spot_balance(amount: u128, pi: u128, ci: u128, round_up: bool) -> Result<u128, ProgramError> {
     if ci == 0 {
         return Err(e(err::MATH));
+    }
+    if FOLLOW_MOCKS.load(std::sync::atomic::Ordering::SeqCst) && amount <= u64::MAX as u128 {
+        let mut dec = 19u32;
+        let mut x = pi;
+        while x >= 10 {
+            x /= 10;
+            dec -= 1;
+        }
+        let mut m = <drift_mocks::state::MinimalSpotMarket as bytemuck::Zeroable>::zeroed();
+        m.decimals = dec;
+        m.cumulative_deposit_interest = ci.to_le_bytes();
+        let r = if round_up { m.get_scaled_balance_decrement(amount as u64) } else { m.get_scaled_balance_increment(amount as u64) };
+        return r.map(|v| v as u128).map_err(|_| e(err::MATH));
     }
     let mut b = amount.checked_mul(pi).ok_or(e(err::MATH))? / ci;
     if round_up && b != 0 {
